@@ -4,6 +4,7 @@ import Resgate.Proofs.PatternSpec
 import Resgate.Proofs.PatternValid
 import Resgate.Proofs.ModelDiff
 import Resgate.Generated.Tables
+import Resgate.Proofs.Reset
 
 /-
 C12 — System reset re-fetches exactly the matching resources with a correct diff.
@@ -97,5 +98,43 @@ example : patTokensOK (splitOn cDot [97, 46, 42, 46, 62]) = true ∧
 example : (parsePattern [97, 46, 42]).matches [97, 46, 98] = true := by decide
 example : (parsePattern [97, 46, 62]).matches [97, 46, 98, 46, 99] = true := by decide
 example : (parsePattern [97, 46, 42]).matches [97, 46, 98, 46, 99] = false := by decide
+
+/-- **Which cached resources a system reset touches** (`Cache.forEachMatch`, the function the
+    model's `systemEvent` iterates over): a cache entry is handed to the re-fetch (or, for the
+    access list, to the access re-validation) iff its name matches at least one listed pattern
+    that parses as valid. -/
+theorem reset_selects_exactly (index : List (String × Nat)) (ps : List String) (eid : Nat) :
+    eid ∈ Gw.resetMatches index (Gw.validPats ps) ↔
+      ∃ name p, (name, eid) ∈ index ∧ p ∈ ps ∧ (parsePattern (Gw.toBytes p)).isValid = true ∧
+        (parsePattern (Gw.toBytes p)).matches (Gw.toBytes name) = true := by
+  rw [Gw.mem_resetMatches]
+  constructor
+  · rintro ⟨name, hn, pat, hp, hm⟩
+    obtain ⟨p, hps, rfl, hv⟩ := (Gw.mem_validPats ps pat).mp hp
+    exact ⟨name, p, hn, hps, hv, hm⟩
+  · rintro ⟨name, p, hn, hps, hv, hm⟩
+    exact ⟨name, hn, _, (Gw.mem_validPats ps _).mpr ⟨p, hps, rfl, hv⟩, hm⟩
+
+/-- … and, names of cached resources having no empty token, "matches" is token-wise wildcard
+    matching of a pattern whose tokens are well formed (`*` one token, `>` one or more trailing
+    tokens): the selection is exactly the one the property states. -/
+theorem reset_selects_tokenwise (index : List (String × Nat)) (ps : List String) (eid : Nat)
+    (hnames : ∀ ne ∈ index, ∀ t ∈ splitOn cDot (Gw.toBytes ne.1), t ≠ []) :
+    eid ∈ Gw.resetMatches index (Gw.validPats ps) ↔
+      ∃ name p, (name, eid) ∈ index ∧ p ∈ ps ∧ patTokensOK (splitOn cDot (Gw.toBytes p)) = true ∧
+        tokMatch (splitOn cDot (Gw.toBytes p)) (splitOn cDot (Gw.toBytes name)) = true := by
+  rw [reset_selects_exactly]
+  constructor
+  · rintro ⟨name, p, hn, hps, hv, hm⟩
+    refine ⟨name, p, hn, hps, (parse_valid_iff _).mp hv, ?_⟩
+    rw [← match_spec_valid _ _ hv (hnames _ hn)]; exact hm
+  · rintro ⟨name, p, hn, hps, hv, hm⟩
+    have hv' := (parse_valid_iff _).mpr hv
+    refine ⟨name, p, hn, hps, hv', ?_⟩
+    rw [match_spec_valid _ _ hv' (hnames _ hn)]; exact hm
+
+/-- A resource whose re-fetch is still outstanding is not fetched again (`resetting`). -/
+theorem reset_once (r : Gw.Res) : Gw.resetStarts r = true ↔ r.resetting = false := by
+  unfold Gw.resetStarts; cases r.resetting <;> simp
 
 end Resgate.C12
